@@ -34,6 +34,7 @@
 #include "mixer.h"
 #include "hio.h"
 #include "extras.h"
+#include "rng.h"
 #include "med_extras.h"
 #include "hmn_extras.h"
 #include "far_extras.h"
@@ -431,6 +432,9 @@ static int play_digest(xmp_context ctx, uint64_t *out)
 	uint64_t h = FNV_INIT;
 	int i, rc;
 
+	/* xmp_create_context seeds the generator from time(NULL): pin it, the comparison is
+	 * about what a failed call leaves behind, not about the clock */
+	libxmp_set_random(&((struct context_data *)ctx)->rng, 20260930u);
 	rc = xmp_start_player(ctx, 22050, 0);
 	if (rc < 0)
 		return rc;
